@@ -379,6 +379,9 @@ def run(rep, tier):
         clause_e(facts, rep)
         from .. import ws_table
         ws_table.check(facts, rep)
+        # 'a number whose magnitude overflows double is rejected': shared with C04 clause (e)
+        from . import c04
+        c04.clause_e(facts, rep)
     rep.extra['traces_validated_against_impl'] = 0
     rep.trust('clang 14 parser/template instantiation/CFG builder/constant evaluator',
               'hand-written RFC 8259 reference transducer in sv/e6_vpa.py (ref_step)',
